@@ -113,8 +113,18 @@ def build_obligation(inst):
             tensors.append(Tensor(a, inputs))
         elim = frozenset(graph["eliminate"])
         plates = frozenset(graph["plates"])
+        theta = None
+        if variant == "param":
+            # one factor depends on a free real parameter: factor_k = tensor_k (x) theta
+            from funsor import Real, Variable
+            theta = mk.array("theta", (), graph["carrier"])
+            k = graph.get("param_factor", 0) % len(tensors)
+            tensors[k] = prod_op(tensors[k], Variable("theta", Real))
         try:
-            if variant == "sum_product":
+            if variant == "param":
+                r = SP.sum_product(sum_op, prod_op, tensors, elim, plates)
+                r = r(theta=Tensor(theta))
+            elif variant == "sum_product":
                 r = SP.sum_product(sum_op, prod_op, tensors, elim, plates)
             elif variant == "scaled":
                 r = SP.sum_product(sum_op, prod_op, tensors, elim, plates, plate_to_scale=dict(graph["scales"]))
@@ -162,6 +172,14 @@ def build_obligation(inst):
         if extra:
             return [(_false(mk, "result has inputs %s that are eliminated" % extra), None)]
         cells = [as_obj(a) for a in arrs]
+        if theta is not None:
+            tc = as_obj(theta)[()]
+            k = graph.get("param_factor", 0) % len(cells)
+            f2 = C.BINARY[graph["prod_op"]]
+            nc = np.empty(cells[k].shape, dtype=object)
+            for idx in np.ndindex(*cells[k].shape):
+                nc[idx] = f2(cells[k][idx], tc)
+            cells[k] = nc
         got, exp = [], []
         for pt in itertools.product(*(range(n) for n in rem.values())):
             env = dict(zip(rem, pt))
@@ -278,6 +296,10 @@ def structured_graphs():
     G.append(dict(factors=[(("a", "b"), ("i",)), (("b",), ("i", "j")), (("a",), ("j",))], plate_sizes=ps, plates=["i", "j"], eliminate=["a", "b", "i", "j"]))
     G.append(dict(factors=[(("b",), ("i", "j")), (("a",), ("i",))], plate_sizes=ps, plates=["i", "j"], eliminate=["a", "b", "i", "j"]))
     G.append(dict(factors=[(("a",), ("i",)), (("a",), ("i", "j")), (("a",), ("i", "k"))], plate_sizes={"i": 1, "j": 2, "k": 2}, plates=["i", "j", "k"], eliminate=["a", "i", "j", "k"]))
+    # not exactly eliminable (incomparable plate contexts coupled by one factor): a ValueError is expected, never a value
+    G.append(dict(factors=[(("a", "b"), ("i", "j", "k")), (("a",), ("i",)), (("b",), ("j", "k"))], plate_sizes={"i": 2, "j": 1, "k": 2}, plates=["i", "j", "k"], eliminate=["a", "b", "i", "j", "k"]))
+    G.append(dict(factors=[(("a", "b"), ("i", "j", "k")), (("a",), ("i", "j")), (("b",), ("k",))], plate_sizes={"i": 1, "j": 2, "k": 2}, plates=["i", "j", "k"], eliminate=["a", "b", "i", "j", "k"]))
+    G.append(dict(factors=[(("a", "b"), ("i", "j")), (("a",), ("i",)), (("b",), ("j",))], plate_sizes={"i": 2, "j": 2}, plates=["i", "j"], eliminate=["a", "b", "i", "j"]))
     return [g for g in G if well_formed(g)]
 
 
@@ -289,6 +311,8 @@ def instances(tier, seed):
             g = dict(g, sum_op=sum_op, prod_op=prod_op, carrier=car)
             out.append(("g", g, "sum_product"))
             out.append(("g", g, "partial"))
+            out.append(("g", g, "modified"))
+            out.append(("g", g, "dynamic"))
             for sp in splits(g, rng)[:2]:
                 out.append(("g", dict(g, split=sp), "split"))
     n = 40 if tier == "quick" else 400
@@ -307,6 +331,8 @@ def instances(tier, seed):
                 out.append(("g", dict(g, split=sp), "split"))
             if rng.random() < 0.4:
                 out.append(("g", g, rng.choice(["modified", "dynamic"])))
+            if rng.random() < 0.4 and (sum_op, prod_op) in (("add", "mul"), ("logaddexp", "add"), ("max", "add")):
+                out.append(("g", dict(g, param_factor=rng.randrange(5)), "param"))
             if rng.random() < 0.1 and set(g["plates"]) - set(g["eliminate"]):
                 out.append(("g", g, "modified_all"))
             if (sum_op, prod_op) in (("add", "mul"), ("logaddexp", "add"), ("max", "add")) and rng.random() < 0.4:
